@@ -3,6 +3,7 @@ import MesonModel.Rewrite.StrLitLemmas
 import MesonModel.Rewrite.Parse
 import MesonModel.Rewrite.Compare
 import MesonModel.Rewrite.ListEdit
+import MesonModel.Rewrite.PathMatch
 /-
 C17 — rewriter edits are local and keep everything else meaning the same (theorems over the model).
 
@@ -220,6 +221,49 @@ theorem defaultOptions_set_shape (kvs : List (List Char × List Char)) (l : List
 example : defaultOptionsDelete ["debug".toList] ["b_ndebug=if-release".toList, "debug=true".toList, "c_args=-Ddebug=1".toList,
     "sub:debug=true".toList, "debug".toList] = ["b_ndebug=if-release".toList, "c_args=-Ddebug=1".toList, "sub:debug=true".toList, "debug".toList] := by
   decide
+
+/-! ### which source string a removal takes -/
+
+/-- a string of a list matches a requested file iff, read from the directory that list's strings are relative to,
+it names the same normalised path as the request read from the source root -/
+theorem find_node_string_matches_iff (relto s root req : List Char) :
+    stringMatches relto s root req = true ↔ normpath (joinPath relto s) = normpath (joinPath root req) := by
+  simp [stringMatches]
+
+/-- `find_node` can only return positions whose string satisfies that equation, and every such position is offered -/
+theorem candMatches_iff (root req : List Char) (c : Cand) (j : Nat) :
+    j ∈ candMatches root req c ↔ ∃ s, c.strings[j]? = some s ∧ normpath (joinPath c.relto s) = normpath (joinPath root req) := by
+  simp only [candMatches, List.mem_filterMap]
+  constructor
+  · rintro ⟨⟨s, k⟩, hmem, h⟩
+    split at h
+    · rename_i hm
+      have hk : k = j := by simpa using h
+      subst hk
+      have := List.mem_zipIdx hmem
+      refine ⟨s, ?_, (find_node_string_matches_iff _ _ _ _).mp hm⟩
+      simp at this
+      simpa using this.2.symm ▸ (List.getElem?_eq_getElem this.1 ▸ rfl)
+    · simp at h
+  · rintro ⟨s, hs, heq⟩
+    refine ⟨(s, j), ?_, ?_⟩
+    · have hj : j < c.strings.length := by
+        cases hlt : decide (j < c.strings.length) with
+        | true => exact of_decide_eq_true hlt
+        | false =>
+          have : c.strings.length ≤ j := Nat.le_of_not_lt (of_decide_eq_false hlt)
+          simp [List.getElem?_eq_none this] at hs
+      have hget : c.strings[j] = s := by
+        have := List.getElem?_eq_getElem hj
+        rw [this] at hs; exact Option.some.inj hs
+      rw [List.mem_zipIdx_iff_getElem?]
+      simp [hs]
+    · simp [(find_node_string_matches_iff _ _ _ _).mpr heq]
+
+/-- the same basename in another directory is not taken; `../` and `./` are seen through -/
+example : stringMatches "/r/lib".toList "util.c".toList "/r".toList "lib/util.c".toList = true ∧
+    stringMatches "/r".toList "util.c".toList "/r".toList "lib/util.c".toList = false ∧
+    stringMatches "/r/app".toList "../lib/./util.c".toList "/r".toList "lib/util.c".toList = true := by decide
 
 /-! ### printer: what is read back -/
 
